@@ -212,6 +212,27 @@ Theorem C12_auto_reports_profile :
 Proof. exact auto_reports_profile. Qed.
 Print Assumptions C12_auto_reports_profile.
 
+(** One cache epoch (utils.cached around both getters; the memo key is the full argument
+    tuple INCLUDING keyword values): ANY sequence of calls get_fg_bg_colors(),
+    get_fg_bg_colors(hex=False), get_fg_bg_colors(hex=True), get_terminal_name_version(), in
+    any order, any number of times, from freshly invalidated caches — every call reports the
+    profile's colours in the representation THAT call asked for ("#rrggbb" or an RGB triple;
+    [exp_call] is a function of the profile and of this call alone), resp. the profile's
+    identity; nothing is left unread at the end. *)
+Theorem C12_epoch_reports_profile :
+  forall cost c, (forall i, 0 <= cost i <= c) ->
+    forall cfg, enabled cfg = true -> 0 < qtimeout cfg ->
+    forall p, wf_profile p = true ->
+    forall delays D1 D2,
+      timely c cfg (profile_terminal p delays) FGBG_request D1 ->
+      timely c cfg (profile_terminal p delays) XTV_request D2 ->
+      forall st calls, pend st = [] ->
+        fst (session cost cfg (profile_terminal p delays) calls (st, [], None))
+        = map (exp_call cfg p) calls /\
+        pend (fst (fst (snd (session cost cfg (profile_terminal p delays) calls (st, [], None))))) = [].
+Proof. exact epoch_from_fresh. Qed.
+Print Assumptions C12_epoch_reports_profile.
+
 (** *** colours *)
 
 (** every component of 1 or more hex digits — each with its OWN width — is scaled into
